@@ -624,6 +624,21 @@ func init() {
 			}, nil
 		}
 	}
+	// C12: the JSON path after prior calls that may leave something behind (single goroutine)
+	Scenarios["c12.after-prior-calls"] = func() (choice.Scenario, func() any) {
+		return func(c *choice.Ctx) {
+			k := 1 + c.Choose("prior-activity", len(polluteNames)-1)
+			kind := c.Choose("profile", 3)
+			a := genValid(c, kind, false)
+			x, err := buildValid(a, c.Choose("build", 3))
+			if err != nil {
+				return
+			}
+			encStats.StateStr(polluteNames[k] + a.String())
+			pollute(k)
+			c12Eval(c, encStats, a, x, kindNames[kind]+":after:"+polluteNames[k], kind <= kindP2)
+		}, nil
+	}
 	mk := func(prop string, quickBound, thoroughBound int, rule string) func(r *evid.Run) {
 		return func(r *evid.Run) {
 			registerStandardExt()
@@ -636,6 +651,9 @@ func init() {
 			lp := strings.ToLower(prop)
 			// first, in a single goroutine: deterministic even if the library shares buffers between calls
 			exploreChoiceOpts(r, lp+".returned-bytes", 3, dl, 1)
+			if prop == "C12" {
+				exploreChoiceOpts(r, "c12.after-prior-calls", 2, dl, 1)
+			}
 			for kind := 0; kind < 3; kind++ {
 				exploreChoice(r, fmt.Sprintf("%s.valid.%s", lp, kindNames[kind]), b, dl)
 			}
